@@ -116,10 +116,13 @@ Definition fwf (k : kind) (bits : N) (txt : option bytes) : Prop := forall t, tx
 
 Section WF.
   Variable e : env.
+  Variable nn : bool.
+  (* with NoNullSliceOrMap a nil slice is `[]`: one level deeper than the state stack it needs *)
+  Definition nil_depth : nat := if nn then 1 else 0.
   Notation has_type := (has_type fwf).
 
   Lemma scalar_wf : forall k fuel v addr res, scalar_kind k = true -> has_type (TPrim k) v ->
-    std_enc e Qraw fuel (TPrim k) v addr false = SOk res -> strict 0 res.
+    std_enc e Qraw nn fuel (TPrim k) v addr false = SOk res -> strict 0 res.
   Proof.
     intros k fuel v addr res Hk Hv H. destruct fuel as [|f]; [discriminate H|].
     inversion Hv as [b|k' z Hr|k' bits txt Hk' Hf|s| | | | | |]; subst.
@@ -191,7 +194,7 @@ Section WF.
   Qed.
 
   Lemma scalar_wf_q : forall k fuel v addr res, scalar_kind k = true -> has_type (TPrim k) v ->
-    std_enc e Qraw fuel (TPrim k) v addr true = SOk res -> strict 0 res.
+    std_enc e Qraw nn fuel (TPrim k) v addr true = SOk res -> strict 0 res.
   Proof.
     intros k fuel v addr res Hk Hv H. destruct fuel as [|f]; [discriminate H|].
     inversion Hv as [b|k' z Hr|k' bits txt Hk' Hf|s| | | | | |]; subst.
@@ -204,35 +207,35 @@ Section WF.
   Qed.
 
   Lemma tail_wf : forall f el addr l,
-    (forall x, In x l -> forall a, std_enc e Qraw f el x addr false = SOk a -> strict (need x) a) ->
-    forall tb, tail_items e f el addr l = SOk tb -> strict_atail (need_list l) (tb ++ [93%N]).
+    (forall x, In x l -> forall a, std_enc e Qraw nn f el x addr false = SOk a -> strict (need x + nil_depth) a) ->
+    forall tb, tail_items e nn f el addr l = SOk tb -> strict_atail (need_list l + nil_depth) (tb ++ [93%N]).
   Proof.
     intros f el addr. induction l as [|y r IHr]; intros IH tb H.
     - cbn in H. injection H as <-. apply (SAT_end _ []). reflexivity.
-    - destruct (tail_items_cons _ _ _ _ _ _ _ H) as (a & tb' & Ha & Ht & ->).
+    - destruct (tail_items_cons _ _ _ _ _ _ _ _ H) as (a & tb' & Ha & Ht & ->).
       pose proof (IH y (or_introl eq_refl) _ Ha) as H1.
       pose proof (IHr (fun x Hx => IH x (or_intror Hx)) _ Ht) as H2.
       replace (([44%N] ++ a ++ tb') ++ [93%N]) with ([] ++ 44%N :: [] ++ a ++ (tb' ++ [93%N])) by (cbn [app]; rewrite <- app_assoc; reflexivity).
       change (need_list (y :: r)) with (Nat.max (need y) (need_list r)).
       apply SAT_more; try reflexivity.
-      + eapply strict_mono; [exact H1|apply Nat.le_max_l].
-      + eapply atail_mono; [exact H2|apply Nat.le_max_r].
+      + eapply strict_mono; [exact H1|pose proof (Nat.le_max_l (need y) (need_list r)); lia].
+      + eapply atail_mono; [exact H2|pose proof (Nat.le_max_r (need y) (need_list r)); lia].
   Qed.
 
   Lemma list_wf : forall f el addr l,
-    (forall x, In x l -> forall a, std_enc e Qraw f el x addr false = SOk a -> strict (need x) a) ->
-    forall items, enc_list e f el addr l = SOk items -> strict (S (need_list l)) ([91%N] ++ items ++ [93%N]).
+    (forall x, In x l -> forall a, std_enc e Qraw nn f el x addr false = SOk a -> strict (need x + nil_depth) a) ->
+    forall items, enc_list e nn f el addr l = SOk items -> strict (S (need_list l + nil_depth)) ([91%N] ++ items ++ [93%N]).
   Proof.
     intros f el addr l IH items H. destruct l as [|x r].
     - cbn in H. injection H as <-. apply (ST_arr0 _ []). reflexivity.
-    - destruct (enc_list_inv _ _ _ _ _ _ _ H) as (a & tb & Ha & Ht & ->).
+    - destruct (enc_list_inv _ _ _ _ _ _ _ _ H) as (a & tb & Ha & Ht & ->).
       pose proof (IH x (or_introl eq_refl) _ Ha) as H1.
       pose proof (tail_wf _ _ _ r (fun y Hy => IH y (or_intror Hy)) _ Ht) as H2.
       replace ([91%N] ++ (a ++ tb) ++ [93%N]) with (91%N :: [] ++ a ++ (tb ++ [93%N])) by (cbn [app]; rewrite <- app_assoc; reflexivity).
       change (need_list (x :: r)) with (Nat.max (need x) (need_list r)).
       apply ST_arr; try reflexivity.
-      + eapply strict_mono; [exact H1|apply Nat.le_max_l].
-      + eapply atail_mono; [exact H2|apply Nat.le_max_r].
+      + eapply strict_mono; [exact H1|pose proof (Nat.le_max_l (need x) (need_list r)); lia].
+      + eapply atail_mono; [exact H2|pose proof (Nat.le_max_r (need x) (need_list r)); lia].
   Qed.
 
   Section Struct.
@@ -243,13 +246,13 @@ Section WF.
     Hypothesis Hlen : length vs = length ph.
     Hypothesis Htyp : forall k o t x, nth_error ph k = Some (o, t) -> nth_error vs k = Some x -> has_type t x.
     Hypothesis IHph : forall k o t x, nth_error ph k = Some (o, t) -> nth_error vs k = Some x ->
-      forall f addr a, std_enc e Qraw f t x addr false = SOk a -> strict (need x) a.
+      forall f addr a, std_enc e Qraw nn f t x addr false = SOk a -> strict (need x + nil_depth) a.
 
     (* a field is either left out or contributes "name":value *)
     Lemma field_step : forall f addr fd r first items, field_ok ph fd ->
-      enc_fields e f ST (VStruct vs) addr (fd :: r) first = SOk items ->
-      enc_fields e f ST (VStruct vs) addr r first = SOk items \/
-      exists a rest, strict (need_list vs) a /\ enc_fields e f ST (VStruct vs) addr r false = SOk rest /\
+      enc_fields e nn f ST (VStruct vs) addr (fd :: r) first = SOk items ->
+      enc_fields e nn f ST (VStruct vs) addr r first = SOk items \/
+      exists a rest, strict (need_list vs + nil_depth) a /\ enc_fields e nn f ST (VStruct vs) addr r false = SOk rest /\
         items = (if first then [] else [44%N]) ++ quote (f_name fd) false ++ [58%N] ++ a ++ rest.
     Proof.
       intros f addr fd r first items (o & Hp & Ho & Hin) H.
@@ -257,21 +260,21 @@ Section WF.
       destruct (In_nth_error _ _ Hin) as [k Hk].
       assert (Hkl : k < length vs) by (rewrite Hlen; apply nth_error_Some; congruence).
       destruct (nth_error vs k) as [x|] eqn:Hx; [|apply nth_error_None in Hx; lia].
-      rewrite (enc_fields_cons e sz ph fsall Hlay f vs addr fd r first o k x Hp Hoz Hk Hx) in H.
+      rewrite (enc_fields_cons e nn sz ph fsall Hlay f vs addr fd r first o k x Hp Hoz Hk Hx) in H.
       destruct (F_omitempty fd && is_empty_value e (f_type fd) x); [left; exact H|right].
       unfold sbind in H.
-      destruct (std_enc e Qraw f (f_type fd) x addr (F_stringize fd)) as [a|] eqn:Ea; [|discriminate H].
-      destruct (enc_fields e f ST (VStruct vs) addr r false) as [rest|] eqn:Er; [|discriminate H].
+      destruct (std_enc e Qraw nn f (f_type fd) x addr (F_stringize fd)) as [a|] eqn:Ea; [|discriminate H].
+      destruct (enc_fields e nn f ST (VStruct vs) addr r false) as [rest|] eqn:Er; [|discriminate H].
       injection H as <-. exists a, rest. repeat split; try reflexivity.
       destruct (F_stringize fd) eqn:Es.
       - destruct (Hsq eq_refl) as [Hqt _]. destruct (f_type fd) as [kq| | | | | | |] eqn:Eft; try discriminate Hqt.
         eapply strict_mono; [eapply scalar_wf_q; [exact Hqt|eapply Htyp; eassumption|exact Ea]|apply Nat.le_0_l].
-      - eapply strict_mono; [eapply IHph; eassumption|]. apply need_list_in. eapply nth_error_In; exact Hx.
+      - eapply strict_mono; [eapply IHph; eassumption|]. pose proof (need_list_in vs x (nth_error_In _ _ Hx)). lia.
     Qed.
 
     Lemma fields_wf : forall f addr fs, Forall (field_ok ph) fs -> forall first items,
-      enc_fields e f ST (VStruct vs) addr fs first = SOk items ->
-      if first then strict (S (need_list vs)) ([123%N] ++ items ++ [125%N]) else strict_otail (need_list vs) (items ++ [125%N]).
+      enc_fields e nn f ST (VStruct vs) addr fs first = SOk items ->
+      if first then strict (S (need_list vs + nil_depth)) ([123%N] ++ items ++ [125%N]) else strict_otail (need_list vs + nil_depth) (items ++ [125%N]).
     Proof.
       intros f addr fs Hfs. induction Hfs as [|fd r Hfd Hr IH]; intros first items H.
       - cbn in H. injection H as <-. destruct first; [apply (ST_obj0 _ [])|apply (SOT_end _ [])]; reflexivity.
@@ -288,28 +291,28 @@ Section WF.
     Qed.
 
     Lemma struct_wf : forall f addr fs, Forall (field_ok ph) fs -> forall items,
-      enc_fields e f ST (VStruct vs) addr fs true = SOk items -> strict (S (need_list vs)) ([123%N] ++ items ++ [125%N]).
+      enc_fields e nn f ST (VStruct vs) addr fs true = SOk items -> strict (S (need_list vs + nil_depth)) ([123%N] ++ items ++ [125%N]).
     Proof. intros f addr fs Hfs items H. exact (fields_wf f addr fs Hfs true items H). Qed.
   End Struct.
 
   (* every value of the fragment: the bytes of the reference encoder are one strict RFC 8259 value, nested no deeper
      than the state stack the machine needs for the value *)
   Theorem wellformed_frag : forall t, frag e t -> forall fuel v addr res, has_type t v ->
-    std_enc e Qraw fuel t v addr false = SOk res -> strict (need v) res.
+    std_enc e Qraw nn fuel t v addr false = SOk res -> strict (need v + nil_depth) res.
   Proof.
     induction t using ty_ind'; intros Hf fuel v addr res Hv Hs; cbn [frag] in Hf; try contradiction.
     - eapply strict_mono; [eapply scalar_wf; eassumption|apply Nat.le_0_l].
     - (* array *)
       destruct fuel as [|f]; [discriminate Hs|].
       inversion Hv as [ | | | | | | | |n0 el0 l Hlen Hall| ]; subst.
-      rewrite (std_enc_array e f _ t l addr false Hf) in Hs. unfold sbind in Hs.
-      destruct (enc_list e f t addr l) as [items|] eqn:El; [|discriminate Hs]. injection Hs as <-.
-      change (need (VArr l)) with (S (need_list l)).
+      rewrite (std_enc_array e nn f _ t l addr false Hf) in Hs. unfold sbind in Hs.
+      destruct (enc_list e nn f t addr l) as [items|] eqn:El; [|discriminate Hs]. injection Hs as <-.
+      change (need (VArr l) + nil_depth) with (S (need_list l + nil_depth)).
       eapply list_wf; [|exact El]. intros x Hx a Ha. eapply IHt; [exact Hf|apply Hall; exact Hx|exact Ha].
     - (* slice *)
       destruct fuel as [|f]; [discriminate Hs|].
       inversion Hv as [ | | | | | |el0|el0 l Hall| | ]; subst.
-      + destruct addr; cbn in Hs; injection Hs as <-; constructor.
+      + destruct addr; cbn in Hs; injection Hs as <-; unfold nil_depth; destruct nn; first [apply (ST_arr0 0 []); reflexivity|constructor].
       + destruct (is_simple_byte e t) eqn:Esb.
         * assert (Eel : t = TPrim KUint8).
           { unfold is_simple_byte in Esb. apply andb_true_iff in Esb. destruct Esb as [Esb _]. apply andb_true_iff in Esb. destruct Esb as [Esb _].
@@ -318,9 +321,9 @@ Section WF.
           destruct addr; cbn in Hs;
             match type of Hs with context [match ?x with Some _ => _ | None => _ end] => destruct x as [b|] end;
             try discriminate Hs; injection Hs as <-; apply ST_str; apply plain_body; eapply base64_plain; apply le_n.
-        * rewrite (std_enc_slice e f t l addr false Hf Esb) in Hs. unfold sbind in Hs.
-          destruct (enc_list e f t true l) as [items|] eqn:El; [|discriminate Hs]. injection Hs as <-.
-          change (need (VSlice (Some l))) with (S (need_list l)).
+        * rewrite (std_enc_slice e nn f t l addr false Hf Esb) in Hs. unfold sbind in Hs.
+          destruct (enc_list e nn f t true l) as [items|] eqn:El; [|discriminate Hs]. injection Hs as <-.
+          change (need (VSlice (Some l)) + nil_depth) with (S (need_list l + nil_depth)).
           eapply list_wf; [|exact El]. intros x Hx a Ha. eapply IHt; [exact Hf|apply Hall; exact Hx|exact Ha].
     - (* pointer *)
       destruct fuel as [|f]; [discriminate Hs|].
@@ -328,14 +331,14 @@ Section WF.
       inversion Hv as [ | | | |el0|el0 x Hx| | | | ]; subst.
       + cbn [std_enc] in Hs. rewrite !Hi in Hs. cbn in Hs. injection Hs as <-. constructor.
       + cbn [std_enc] in Hs. rewrite !Hi in Hs. cbn in Hs.
-        eapply strict_mono; [eapply IHt; eassumption|]. cbn [need]. apply Nat.le_succ_diag_r.
+        eapply strict_mono; [eapply IHt; eassumption|]. cbn [need]. lia.
     - (* struct *)
       destruct fuel as [|f]; [discriminate Hs|].
       destruct Hf as (Hall & Hlay & Hfs).
       inversion Hv as [ | | | | | | | | |sz0 ph0 fs0 vs Hlen Hty]; subst.
       rewrite std_enc_struct in Hs. unfold sbind in Hs.
-      destruct (enc_fields e f (TStruct s ph fs) (VStruct vs) addr fs true) as [items|] eqn:Ef; [|discriminate Hs]. injection Hs as <-.
-      change (need (VStruct vs)) with (S (need_list vs)).
+      destruct (enc_fields e nn f (TStruct s ph fs) (VStruct vs) addr fs true) as [items|] eqn:Ef; [|discriminate Hs]. injection Hs as <-.
+      change (need (VStruct vs) + nil_depth) with (S (need_list vs + nil_depth)).
       eapply (struct_wf s ph fs Hlay vs Hlen Hty); [|exact Hfs|exact Ef].
       intros k o t x Hk Hx f' addr' a Ha.
       rewrite Forall_forall in H. specialize (H (o, t) (nth_error_In _ _ Hk)). cbn in H.
@@ -344,10 +347,10 @@ Section WF.
 End WF.
 
 (* sonic's own validator (alg.Valid, property C02's model) accepts those bytes *)
-Theorem wellformed_frag_valid : forall e t fuel v addr res, frag e t -> has_type fwf t v -> need v < 4096 ->
-  std_enc e Qraw fuel t v addr false = SOk res -> Valid res = Ok true.
+Theorem wellformed_frag_valid : forall e nn t fuel v addr res, frag e t -> has_type fwf t v -> need v + nil_depth nn < 4096 ->
+  std_enc e Qraw nn fuel t v addr false = SOk res -> Valid res = Ok true.
 Proof.
-  intros e t fuel v addr res Hf Hv Hn Hs. apply valid_complete.
+  intros e nn t fuel v addr res Hf Hv Hn Hs. apply valid_complete.
   exists [], res, []. rewrite app_nil_r. repeat split; try reflexivity.
   eapply sval_mono; [apply strict_sub_sval; eapply wellformed_frag; eassumption|]. unfold MAX_RECURSE. cbn. lia.
 Qed.
